@@ -62,7 +62,7 @@ CheckMp(r) ==
    r.kind = "mp" =>
       /\ Ck("C07", r, "C07.constructs", ~r.raised /\ ~r.none, r.diff)
       /\ Ck("C07", r, "C07.roundtrip", HasImpl(r) => r.rt_ok, r.diff)
-      /\ Ck("C07", r, "C07.meaning", (HasImpl(r) /\ WfUpdateMp(r.impl, TRUE)) => NormUpdate(r.impl) = NormUpdate(r.ref), <<>>)
+      /\ Ck("C07", r, "C07.meaning", (HasImpl(r) /\ WfUpdateMp(r.impl, TRUE)) => NormMpUpdate(r.impl) = NormMpUpdate(r.ref), <<>>)
       /\ Ck("C07", r, "C07.decode", r.dec_ok, r.ddiff)
       /\ Ck("C08", r, "C08.silent", ~r.none, <<>>)
       /\ Ck("C08", r, "C08.wellformed", HasImpl(r) => WfUpdateMp(r.impl, TRUE), <<>>)
